@@ -9,11 +9,15 @@ package checks
 
 import (
 	"fmt"
+	"sync"
+	"sync/atomic"
 	"testing"
+	"time"
 
 	"github.com/absfs/absnfs"
 	"pgregory.net/rapid"
 
+	"verif/harness/drv"
 	"verif/harness/nfsx"
 	"verif/harness/stat"
 	"verif/harness/vfs"
@@ -191,3 +195,123 @@ func hashOf(v *vfs.FS, e vfs.Entry) uint64 { return e.Hash }
 var propC25 = defProp("C25", "TestC25", genC25, runC25)
 
 func TestC25(t *testing.T) { propC25.Test(t) }
+
+// ---- the limit lowered (or switched on) while a growing request is inside the backend
+//
+// Once the update has returned the limit is in force; a WRITE / SETATTR(size)
+// admitted under the old limit must not grow the file beyond the new one after
+// that point (the update has to wait for it).
+
+type c25DCase struct {
+	Old     int64  `json:"old"`     // limit at construction (0 = none)
+	New     int64  `json:"new"`     // limit set at runtime
+	End     int64  `json:"end"`     // size the parked request produces, New < End (<= Old if Old > 0)
+	Setattr bool   `json:"setattr"` // SETATTR(size) instead of WRITE
+	Via     string `json:"via"`     // policy export
+	WaitMs  int    `json:"wait_ms"`
+}
+
+func genC25D(t *rapid.T) c25DCase {
+	c := c25DCase{Old: pick(t, "old", int64(0), 1000, 5000), New: pick(t, "new", int64(1), 10, 100, 999), Setattr: rapid.Bool().Draw(t, "setattr"),
+		Via: pick(t, "via", "policy", "export"), WaitMs: pick(t, "wait", 0, 5, 60, 120)}
+	hi := c.Old
+	if hi == 0 {
+		hi = 5000
+	}
+	c.End = rapid.Int64Range(c.New+1, hi).Draw(t, "end")
+	return c
+}
+
+func runC25D(tb stat.TB, c c25DCase) {
+	const id, check = "C25", "TestC25Drain"
+	v := vfs.New()
+	v.SeedFile("/f", 0644, 0, 0, []byte("x"))
+	s := newSession(tb, v, absnfs.ExportOptions{AttrCacheTimeout: 1, AttrCacheSize: 4, MaxFileSize: c.Old, Timeouts: drv.FastTimeouts(5 * time.Second)})
+	defer s.close()
+	s.tolerateMalformed = true
+	root := s.mount()
+	fr := s.nfs(nfsx.ProcLookup, nfsx.ArgsDirop(root, "f"))
+	if fr.Status != nfsx.OK {
+		tb.Fatalf("harness: lookup f")
+	}
+	gate := make(chan struct{})
+	parked := make(chan struct{})
+	var once sync.Once
+	var inForce atomic.Bool
+	var late []string
+	var mu sync.Mutex
+	v.SetBefore(func(call *vfs.Call) {
+		if !call.Mutating {
+			return
+		}
+		once.Do(func() { close(parked) })
+		<-gate
+		grows := (call.Op == "File.WriteAt" && call.Off+int64(call.N) > c.New) || ((call.Op == "Truncate" || call.Op == "File.Truncate") && call.Size > c.New)
+		if inForce.Load() && grows {
+			mu.Lock()
+			late = append(late, call.String())
+			mu.Unlock()
+		}
+	})
+	done := make(chan struct{})
+	go func() {
+		defer close(done)
+		proc, args := uint32(nfsx.ProcWrite), nfsx.ArgsWrite(fr.Fh, uint64(c.End-1), 1, nfsx.FileSync, []byte("Z"))
+		if c.Setattr {
+			proc, args = nfsx.ProcSetattr, nfsx.ArgsSetattr(fr.Fh, nfsx.Sattr{Size: nfsx.U64p(uint64(c.End))}, nil)
+		}
+		s.e.CallWire(drv.Root(), nfsx.Call(s.e.NextXid(), nfsx.ProgNFS, 3, proc, drv.Root().Cred, nfsx.AuthNone(), args))
+	}()
+	select {
+	case <-parked:
+	case <-done:
+		stat.Discard(false)
+		close(gate)
+		return
+	case <-time.After(10 * time.Second):
+		close(gate)
+		tb.Fatalf("harness: request neither parked nor returned")
+	}
+	upd := make(chan error, 1)
+	go func() {
+		var err error
+		if c.Via == "policy" {
+			err = s.e.NFS.UpdatePolicyOptions(absnfs.PolicyOptions{MaxFileSize: c.New})
+		} else {
+			o := s.e.NFS.GetExportOptions()
+			o.MaxFileSize = c.New
+			err = s.e.NFS.UpdateExportOptions(o)
+		}
+		inForce.Store(true)
+		upd <- err
+	}()
+	select {
+	case err := <-upd:
+		upd <- err
+	case <-time.After(time.Duration(c.WaitMs) * time.Millisecond):
+	}
+	close(gate)
+	select {
+	case err := <-upd:
+		if err != nil {
+			tb.Fatalf("harness: update failed: %v", err)
+		}
+	case <-time.After(20 * time.Second):
+		stat.Violate(tb, id, check, "limit-update-never-returns", c, "the MaxFileSize update did not return within 20 s after the in-flight request was released")
+		return
+	}
+	<-done
+	time.Sleep(2 * time.Millisecond)
+	v.SetBefore(nil)
+	mu.Lock()
+	defer mu.Unlock()
+	if len(late) > 0 {
+		stat.Violate(tb, id, check, "file-grows-beyond-limit-after-limit-update-returned", c, "MaxFileSize %d -> %d returned while a request admitted under the old limit was still inside the backend; it then issued %s", c.Old, c.New, late[0])
+		return
+	}
+	stat.Case(c, true)
+}
+
+var propC25D = defProp("C25", "TestC25Drain", genC25D, runC25D)
+
+func TestC25Drain(t *testing.T) { propC25D.Test(t) }
